@@ -309,6 +309,7 @@ def check_user_requests(repo: Repo, rep: Report) -> None:
     * A-RELEASE response (Evt14) - defined in Sta8 / Sta12 only: the reactor may answer a pending release
       request only while the association is still established (after an abort the provider is in Sta13)."""
     rep.rule("abort-once", "the single-abort flag is tested and raised before the A-ABORT request is issued")
+    rep.rule("abort-not-after-release", "an A-ABORT request is issued only on paths where `self.is_released` was tested and found false")
     rep.rule("release-only-established", "the reactor answers a peer's release request only under `self.is_established`")
     am = repo.mod("association")
     ci = am.classes.get("Association")
@@ -327,6 +328,20 @@ def check_user_requests(repo: Repo, rep: Report) -> None:
             ok_set = any(cfg.dominates(s_, sn) for s_ in sets)
             ok_test = any(cfg.dominates(t_, sn) for t_ in tests)
             rep.check(ok_set and ok_test, "abort-once", fq, enclosing(c, (ast.stmt,)), "the A-ABORT request is issued before the single-abort flag is raised (or without testing it): while the first request is on its way - EVT_ACSE_SENT handlers included - a second abort() passes the guard, the provider gets Evt15 twice, the second one in Sta13 where it is undefined, and the provider thread dies with the connection open", mod=am, node=c)
+            # ... and never once the association has been released: the provider is then in Sta13 (or on its way
+            # there behind the queued A-RELEASE response), where Evt15 is undefined
+            def released_guard(nd, sn=sn):
+                if nd.kind != "test" or not isinstance(nd.ast, ast.If):
+                    return False
+                t = nd.ast.test
+                atoms = [norm(v) for v in t.values] if isinstance(t, ast.BoolOp) and isinstance(t.op, ast.Or) else [norm(t)]
+                if "self.is_released" not in atoms:
+                    return False
+                tr_succ = [m_ for m_, lab in nd.succ if lab == "true"]
+                return not any(m_ is sn or sn.id in cfg.reachable(m_) for m_ in tr_succ)
+
+            ok_rel = any(released_guard(t_) and cfg.dominates(t_, sn) for t_ in cfg.nodes)
+            rep.check(ok_rel, "abort-not-after-release", fq, enclosing(c, (ast.stmt,)), "the A-ABORT request can be issued although `self.is_released` is already true (the test is missing or weakened by a further condition): an abort() made while the answer to the peer's release request is still on its way is queued behind it, the provider moves to Sta13 and then meets Evt15, which is undefined there - the provider thread dies, the connection is never reported closed and EVT_ABORTED follows EVT_RELEASED", mod=am, node=c)
     rep.floor("A-ABORT request sites in Association", n, 1)
     rr = ci.methods.get("_run_reactor")
     m = 0
